@@ -114,4 +114,7 @@ MUTANTS = [
  ("C14-a", (TO, """		channel.State = types.CLOSED
 		k.SetChannel(ctx, packet.GetSourcePort(), packet.GetSourceChannel(), channel)
 		emitChannelClosedEvent(ctx, packet, channel)""", """		emitChannelClosedEvent(ctx, packet, channel)""")),
+ ("C44-a", ("modules/core/04-channel/genesis.go", "		Receipts:            k.GetAllPacketReceipts(ctx),\n", "")),
+ ("C44-b", ("modules/apps/transfer/keeper/genesis.go", "		TotalEscrowed: k.GetAllTotalEscrowed(ctx),\n", "")),
+ ("C44-c", ("modules/core/04-channel/genesis.go", """	for _, ns := range gs.AckSequences {""", """	for _, ns := range gs.AckSequences[:len(gs.AckSequences)/2] {""")),
 ]
